@@ -137,7 +137,7 @@ def e2eProgram (op : SOp) (w : WorldT) (tcpOk : Bool := true) : Option (MT RetE 
     let cbSpec := a.getD 3 "-"
     let polls := if cbSpec = "-" then [] else (cbSpec.drop 1).toString.toList.map (fun c => c == '1')
     pure (liftRetE .replies (if cbSpec = "-" then uploadT (a.getD 0 "STOR") path else uploadCbT (a.getD 0 "STOR") path),
-          { w with base := { w.base with src := ⟨data, cyc [8192] (data.length + 2)⟩, polls := polls } })
+          { w with base := { w.base with src := ⟨data, cyc (let chop := dotList (a.getD 4 "-"); if chop.isEmpty then [8192] else chop) (data.length + 2)⟩, polls := polls } })
   | "disc" => pure (liftRetE .opt (disconnectT (a.getD 0 "" = "1")), w)
   | "isconn" => pure (pure (.bool w.base.connected), w)
   | _ => none
